@@ -105,6 +105,13 @@ def scenarios(rng: random.Random, tier: str):
                    "rx 1 " + nodegen.ccr(n(), 7200, "peer1.x", flags=208), "rx 1 " + nodegen.ccr(n(), 7201, "peer1.x", flags=208),
                    "ans 0 1 2001", "rx 1 " + nodegen.ccr(n(), 7201, "peer1.x", flags=208)]
             out.insert(0, pre + " | " + " | ".join(evs))
+    # origin hosts spelled with capitals (the window of an origin is found whatever the spelling bookkeeping uses)
+    for rq in (1, 2, 4):
+        for spell in ("Peer1.X", "PEER1.X"):
+            pre = cfg_line(rq) + " | start | acc | rx 0 " + nodegen.cer(spell, "4", n(), n())
+            evs = ["rx 0 " + nodegen.ccr(n(), 7400, spell), "ans 0 0 2001", "rx 0 " + nodegen.ccr(n(), 7400, spell, flags=208),
+                   "rx 0 " + nodegen.ccr(n(), 7401, spell, flags=208), "ans 0 1 2001", "rx 0 " + nodegen.ccr(n(), 7401, spell, flags=208)]
+            out.insert(0, pre + " | " + " | ".join(evs))
     # two origins use the same end-to-end id at the same time (both pending, then both answered / only one answered),
     # then each repeats its request with the T flag
     for rq in (1, 2, 4):
